@@ -9,25 +9,26 @@ def load_scope():
     return json.load(open(p)) if os.path.exists(p) else {'outside_reach': {}}
 
 
-def run_es(prop, tier, jobs, only, assumptions, functions, bounds):
-    """common driver of all E-S checks"""
-    out = Outcome(prop, tier, 'proof')
+def es_part(out, prop, tier, jobs, only, assumptions, functions, bounds):
+    """E-S part of a check: trace + sweep all jobs; fills `out`, returns the coverage dict"""
     if only:
         jobs = [j for j in jobs if any(o in j[0] for o in only)]
+    import z3
+    base = {'obligations': 0, 'discharged': 0, 'hash_identical': 0, 'solver_queries': 0, 'checker_cmd': 'z3 %s (python API)' % z3.get_version_string(), 'trusted_base': es.TRUSTED,
+            'evaluations': 0, 'distinct_nontrivial': 0}
+    if not jobs:
+        return base
     try:
         build_s = es.build_symtrace()
     except Exception as e:
         out.inconclusive.append('symtrace build failed against the current /repo tree: %s' % str(e)[-1500:])
-        out.coverage = {'obligations': 0, 'discharged': 0, 'checker_cmd': 'z3 (python API)', 'trusted_base': es.TRUSTED,
-                        'evaluations': 0, 'distinct_nontrivial': 0}
-        return out.finish()
+        return base
     for j in jobs:
         j[2].setdefault('seed', seed())
     results = es.run_jobs(jobs)
     cov = es.decide(out, prop, results, scope=load_scope())
-    import z3
     cov.update({
-        'checker_cmd': 'z3 %s via python API, one Solver per obligation, timeout 3 s (relations) / 2 s (sign lemmas); driver: /verif/check %s --tier %s' % (z3.get_version_string(), prop, tier),
+        'checker_cmd': 'z3 %s via python API, one Solver per obligation, timeout 3 s (relations) / 0.3-2 s (sign lemmas); driver: /verif/check %s --tier %s' % (z3.get_version_string(), prop, tier),
         'trusted_base': es.TRUSTED,
         'functions_encoded': functions,
         'bounds': bounds,
@@ -37,8 +38,32 @@ def run_es(prop, tier, jobs, only, assumptions, functions, bounds):
         'rule': 'one obligation per (job, output relation); a job = one symbolic execution pair of the real generic code; '
                 'non-trivial = decided by z3 through cut-point sweeping (not hash-identical DAG nodes)',
     })
-    out.coverage = cov
-    out.assumptions = es.ES_ASSUMPTIONS + assumptions
+    out.assumptions += es.ES_ASSUMPTIONS + assumptions
+    return cov
+
+
+def ek_part(out, prop, tier, harnesses, only, assumptions, nsym=None, timeout=2400):
+    """E-K part of a check: run Kani harnesses [(where, name)], fills `out`, returns coverage dict"""
+    import ek
+    if only:
+        harnesses = [h for h in harnesses if any(o in h[1] for o in only)]
+    if not harnesses:
+        return {}
+    if nsym is not None:
+        os.environ['VERIF_NSYM'] = str(nsym)
+        ENV['VERIF_NSYM'] = str(nsym)
+    res = ek.run_harnesses(harnesses, timeout=timeout)
+    cov = ek.decide(out, prop, res)
+    cov['kani'] = 'cargo kani 0.68 / CBMC 6.11 (cadical), -Z stubbing, unwinding assertions on'
+    out.assumptions += ['E-K: derivative cache container replaced by a fixed-capacity association array under cfg(kani) (std HashMap contract trusted)',
+                        'E-K: std::hash::RandomState::new stubbed; single thread; only harness assertions, unwinding assertions and cover! decide (CBMC float side checks ignored)'] + assumptions
+    return cov
+
+
+def run_es(prop, tier, jobs, only, assumptions, functions, bounds):
+    """check consisting of an E-S part only"""
+    out = Outcome(prop, tier, 'proof')
+    out.coverage = es_part(out, prop, tier, jobs, only, assumptions, functions, bounds)
     return out.finish()
 
 
@@ -103,18 +128,38 @@ def check_C13(tier, only):
 
 
 def check_C10(tier, only):
-    return run_es('C10', tier, es.jobs_C10(tier, seed()), only,
+    out = Outcome('C10', tier, 'proof')
+    cov = es_part(out, 'C10', tier, es.jobs_C10(tier, seed()), only,
                   ['relations decided: A_ig(T,V,N) = sum_i A_ig^{pure i}(T,V,N_i) (ideal mixing) and A_ig(T, lam V, lam N) = lam A_ig (extensivity) for Joback and DIPPR models'],
                   ['IdealGas::ideal_gas_helmholtz_energy<Sym>', 'Joback::ln_lambda3', 'Dippr::ln_lambda3', 'Components::subset'],
                   {'components': 2})
+    hs = C10_EK if tier == 'thorough' else ['c10_entropy', 'c10_chemical_potential_1', 'c10_pressure_selector', 'c10_ideal_pressure_all_inputs']
+    cov['E-K'] = ek_part(out, 'C10', tier, [('ext', h) for h in hs], only,
+                         ['C10-a: with PolyEos as Residual + IdealGas (polynomial ideal part overriding the provided ln-based method): f(Total) = f(IdealGas) + f(Residual) exactly and each part is its closed form, '
+                          'for one getter per derivative order arm of get_or_compute_derivative; p_ig = rho R T bitwise for all f64 inputs accepted by new_nvt'], nsym=2)
+    out.coverage = cov
+    return out.finish()
+
+
+C01_EK = ['c01_pressure_res', 'c01_residual_entropy', 'c01_dp_dv_res', 'c01_dp_dt_res', 'c01_ds_res_dt', 'c01_d2s_res_dt2', 'c01_d2p_dv2_res',
+          'c01_residual_chemical_potential', 'c01_dp_dni_res', 'c01_dmu_res_dt', 'c01_dmu_dni_res']
 
 
 def check_C01(tier, only):
-    return run_es('C01', tier, es.jobs_C01(tier, seed()), only,
+    out = Outcome('C01', tier, 'proof')
+    cov = es_part(out, 'C01', tier, es.jobs_C01(tier, seed()), only,
                   ['C01-b: the trace of each model at two different witnesses denotes the same function (no state-dependent data concretised through .re())',
                    'C01-c: derivative parts computed through Dual/HyperDual/Dual3<Sym> have the homogeneity degree implied by first-order homogeneity of A (p, mu: 0; dp/dV, dmu/dN: -1; S: 1; ...)'],
                   ['residual_helmholtz_energy_contributions<Sym>, <Dual<Sym,f64>>, <HyperDual<Sym,f64>>, <Dual3<Sym,f64>>'],
                   {'components': 2})
+    hs = C01_EK if tier == 'thorough' else ['c01_pressure_res', 'c01_dp_dt_res', 'c01_dmu_dni_res', 'c01_residual_entropy']
+    ekc = ek_part(out, 'C01', tier, [('ext', h) for h in hs], only,
+                  ['C01-a: verification model PolyEos (polynomial A of degree <= 3 in V,T,N0,N1; %s leading coefficients symbolic in [-3,3], the rest generic-position primes), state at powers of two: '
+                   'every getter must return exactly the closed-form partial derivative (sign, seeding, cache key)' % ('4' if tier == 'thorough' else '2')],
+                  nsym=4 if tier == 'thorough' else 2)
+    cov['E-K'] = ekc
+    out.coverage = cov
+    return out.finish()
 
 
 # ------------------------------------------------------------------------------------------------
@@ -204,8 +249,17 @@ def check_C03(tier, only):
     except Exception as e:
         import traceback
         out.inconclusive.append('E-M failed: ' + traceback.format_exc()[-1200:])
+    pats = json.load(open(os.path.join(VERIF, 'kani', 'c03_patterns.json')))
+    hs = [p['name'] for p in pats if tier == 'thorough' or p['tier'] == 'quick']
+    if not only or any(o != 'slices' for o in only):
+        ekc = ek_part(out, 'C03', tier, [('ext', h) for h in hs], [o for o in only if o != 'slices'],
+                      ['C03-a/b: State::new with NoResidual(1|2): one harness per concrete subset of the 8 optional inputs, all payloads symbolic f64 (every bit pattern): over-/under-determined sets and component-count '
+                       'mismatches give an error; Ok implies T (and V, N_i when given) are echoed bitwise, are finite and not sign-negative, total_moles = sum, density = N/V; InvalidState only if a given value is invalid; '
+                       'the density iteration is selected exactly where the documented hierarchy says (probed with InitialDensity(-1))'], timeout=3000)
+        cov['E-K'] = ekc
+        cov['states'] = cov.get('states', 0) + ekc.get('states', 0); cov['transitions'] = cov.get('transitions', 0) + ekc.get('transitions', 0)
     cov.setdefault('states', 1); cov.setdefault('transitions', 1); cov.setdefault('samples', [{}]); cov.setdefault('traces_validated_against_impl', 0)
-    cov['functions_encoded'] = ['feos_core::density_iteration::density_iteration (MIR control slice)', 'feos_core::state::newton (MIR control slice)']
+    cov['functions_encoded'] = ['feos_core::density_iteration::density_iteration (MIR control slice)', 'feos_core::state::newton (MIR control slice)', 'State::new / _new / new_nvt / validate (Kani, public API)']
     cov['bounds'] = 'unbounded in the iteration count (CHC invariants by z3 Spacer); abstraction: only integer/boolean locals, Range<i32>, Option<i32> tracked; calls and float comparisons nondeterministic'
     out.coverage = cov
     out.assumptions = ['std contracts of Range<i32>::next / into_iter', 'integer overflow asserts of the MIR (overflow-checks=on) end the path (panic), they do not return',
@@ -529,4 +583,46 @@ def check_C16(tier, only):
     out.assumptions = ['reals instead of f64 rounding', 'glue models: linspace(a,b,n)[0]=a, [n-1]=b; from_elem; from_shape_fn(n,f)=[f(0..n-1)]; (0..n).map(f).collect()=[f(0..n-1)]; Index; len',
                        'polar grid: the 20-step fixed-point loop for alpha is over-approximated by a free alpha > 0; k0 is a free real; exp(c*alpha) for integer c is rewritten to exp(alpha)^c',
                        'only the system-volume clause of C16 is decided; weighted densities / Euler-Lagrange residual of a uniform profile need FFT convolutions (not applicable)']
+    return out.finish()
+
+
+
+C10_EK = ['c10_helmholtz_energy', 'c10_entropy', 'c10_ds_dt', 'c10_d2s_dt2', 'c10_chemical_potential_1', 'c10_dmu_dt_0', 'c10_pressure_selector', 'c10_ideal_pressure_all_inputs']
+
+
+def check_C11(tier, only):
+    out = Outcome('C11', tier, 'model_checking')
+    inc = ['c11_cache_history_1', 'c11_cache_history_2', 'c11_cache_history_2_reach', 'c11_cache_history_clone_2']
+    ext = ['c11_h_dpdni_then_mu', 'c11_h_dmudni_diag_then_mixed', 'c11_h_d2pdv2_then_dpdv', 'c11_h_dmudt_then_entropy']
+    if tier == 'thorough':
+        inc += ['c11_cache_history_3', 'c11_cache_history_3_reach']
+        ext = ['c11_h_dpdv_then_pressure', 'c11_h_dpdni_then_mu', 'c11_h_dpdni_then_pressure', 'c11_h_dmudt_then_entropy', 'c11_h_dmudni_then_mu', 'c11_h_d2pdv2_then_dpdv', 'c11_h_d2sdt2_then_dsdt',
+               'c11_h_dsdt_then_entropy', 'c11_h_dpdt_then_entropy', 'c11_h_dpdt_then_pressure', 'c11_h_mu_then_a', 'c11_h_dmudni_diag_then_mixed', 'c11_h_dmudni_mixed_then_diag', 'c11_h_dpdv_then_d2pdv2',
+               'c11_h_pressure_then_dpdni']
+    cov = ek_part(out, 'C11', tier, [('incrate', h) for h in inc] + [('ext', h) for h in ext], only,
+                  ['cache level (in-crate): every history of <= %d calls of Cache::get_or_insert_with_{f64,d64,d2_64,hd64,hd364} with symbolic method, symbolic Derivative keys (2 components) and an oracle of arbitrary f64 '
+                   'bit patterns returns bitwise the oracle value of the requested key; also across a clone taken between calls' % (3 if tier == 'thorough' else 2),
+                   'getter level: g after h and g on a clone taken before/after h equal the closed form (PolyEos, generic-position coefficients; component indices and clone position symbolic)',
+                   'thread schedules are not covered (Kani does not model concurrency): not claimed'],
+                  timeout=7200 if tier == 'thorough' else 2400)
+    cov.setdefault('states', 1); cov.setdefault('transitions', 1)
+    cov['traces_validated_against_impl'] = 0
+    cov['samples'] = [{'harness': h, 'result': r} for h, r in list(cov.get('harnesses', {}).items())[:6]] or [{}]
+    cov['bounds'] = {'history_length': 3 if tier == 'thorough' else 2, 'components': 2, 'unwind': '10 / 14 / 16'}
+    cov['functions_encoded'] = ['feos_core::state::cache::Cache::* (compiled, in-crate harness)', 'State getters in residual_properties.rs / properties.rs through the public API', 'State::clone']
+    out.coverage = cov
+    return out.finish()
+
+
+def check_C05(tier, only):
+    out = Outcome('C05', tier, 'model_checking')
+    cov = ek_part(out, 'C05', tier, [('ext', 'c05_trivial_solution_1c')], only,
+                  ['only the non-triviality predicate of C05 is decided: PhaseEquilibrium::is_trivial_solution over all pairs of valid 1-component states (all f64 T, V, N accepted by State::new_nvt): '
+                   'true implies |rho2/rho1 - 1| < 1e-5; bitwise copies are trivial; rho2 > 2 rho1 is never trivial',
+                   'isofugacity / balances / success clauses concern converged iterative solvers: not decided (see DESIGN.md)'])
+    cov.setdefault('states', 1); cov.setdefault('transitions', 1)
+    cov['traces_validated_against_impl'] = 0
+    cov['samples'] = [{'harness': h, 'result': r} for h, r in list(cov.get('harnesses', {}).items())[:3]] or [{}]
+    cov['functions_encoded'] = ['PhaseEquilibrium::<E,2>::is_trivial_solution', 'State::new_nvt', 'validate']
+    out.coverage = cov
     return out.finish()
